@@ -720,11 +720,7 @@ pub fn run_history(root: &str, scn: &mut Scn, oracle: &mut Oracle, st: &mut Stat
                 let fo = cli::exec(root, &inv.cwd, &args, &stdin, inv.detrand, inv.dirseed, &plan);
                 st.invocations += 1;
                 st.ops += fo.ops.len() as u64;
-                for op in &fo.ops {
-                    if op.fault != "-" && op.fault != "NA" {
-                        *st.faults.entry(op.fault.clone()).or_default() += 1;
-                    }
-                }
+                crate::c19::count_faults(st, &fo);
                 if fo.out.timed_out {
                     st.hangs += 1;
                     break;
@@ -1085,12 +1081,23 @@ pub fn main_c20(tier_name: &str, seed: u64) -> i32 {
         let mut oracle = Oracle::new(crate::c19::oracle_keys(seed));
         let root = format!("{}/shrink", scratch.path);
         let mut done: BTreeSet<&'static str> = BTreeSet::new();
+        let mut tried: BTreeMap<&'static str, u32> = BTreeMap::new();
         for (_, scn, f) in &all_fails {
-            if !done.insert(f.clause) || done.len() > 3 {
+            if done.contains(f.clause) || (done.len() >= 3 && !tried.contains_key(f.clause)) {
                 continue;
             }
+            let n = tried.entry(f.clause).or_default();
+            if *n >= 8 {
+                continue;
+            }
+            *n += 1;
             let (s, sf) = shrink(&root, scn, f, &mut oracle);
-            violations.push(to_violation(&s, &sf, seed));
+            let v = to_violation(&s, &sf, seed);
+            let is_known = known.matches(&v).is_some();
+            violations.push(v);
+            if !is_known {
+                done.insert(f.clause);
+            }
         }
     }
 
@@ -1119,6 +1126,9 @@ pub fn main_c20(tier_name: &str, seed: u64) -> i32 {
     extra.insert("skipped_hangs".into(), json!(st.hangs));
     extra.insert("sim_ops_intercepted".into(), json!(st.ops));
     extra.insert("faults_fired".into(), json!(st.faults));
+    let by_op: BTreeMap<String, u64> = st.probes.iter().filter(|(k, _)| k.starts_with("fault:")).map(|(k, v)| (k[6..].to_string(), *v)).collect();
+    st.probes.retain(|k, _| !k.starts_with("fault:"));
+    extra.insert("faults_by_operation".into(), json!(by_op));
     extra.insert("probes".into(), json!(st.probes));
     extra.insert("fault_enumeration".into(), json!({"base_projects": tr.enum_bases, "single_fault_placements": enum_placements, "invocations": enum_runs, "exhaustive_over": "every operation index x every applicable fault kind of `seq -o -y [-i]` on each base project"}));
     extra.insert("runs_per_hour".into(), json!(((st.invocations as f64) / wall * 3600.0) as u64));
